@@ -11,6 +11,8 @@ from harness import core
 
 
 def main():
+    import logging
+    logging.disable(logging.CRITICAL)      # deepdiff logs every tolerated delta error; checks that need them re-enable logging locally
     ap = argparse.ArgumentParser()
     ap.add_argument('pid')
     ap.add_argument('--tier', default=os.environ.get('VERIF_TIER', 'quick'))
